@@ -101,6 +101,44 @@ fn impl_write_stream(c: &ClassFile) -> Result<Option<Vec<u8>>, String> {
 	guarded(move || { let mut v = Vec::new(); c.write(&mut v).ok().map(|_| v) })
 }
 
+/// a writer that takes at most `chunk` bytes per call (what pipes, sockets and full buffers do) and is interrupted now
+/// and then: `Write::write` may accept less than it is given, only `write_all` hands over everything
+struct ChunkWriter { out: Vec<u8>, chunk: usize, calls: usize, interrupt_every: usize }
+impl std::io::Write for ChunkWriter {
+	fn write(&mut self, buf: &[u8]) -> std::io::Result<usize> {
+		self.calls += 1;
+		if self.interrupt_every != 0 && self.calls % self.interrupt_every == 0 { return Err(std::io::Error::new(std::io::ErrorKind::Interrupted, "interrupted")); }
+		let n = buf.len().min(self.chunk);
+		self.out.extend_from_slice(&buf[..n]);
+		Ok(n)
+	}
+	fn flush(&mut self) -> std::io::Result<()> { Ok(()) }
+}
+/// ClassFile::write through partial-write writers: (what, bytes that arrived or None for Err)
+fn impl_write_partial(c: &ClassFile, len: usize) -> Vec<(String, Result<Option<Vec<u8>>, String>)> {
+	use std::io::Write;
+	let chunk = 7 + (len * 31 + 5) % 58; // 7..64
+	let mut out = vec![];
+	let c1 = c.clone();
+	out.push((format!("a writer accepting at most {chunk} bytes per call"), guarded(move || { let mut w = ChunkWriter { out: vec![], chunk, calls: 0, interrupt_every: 0 }; c1.write(&mut w).ok().map(|_| w.out) })));
+	let c2 = c.clone();
+	out.push((format!("a writer accepting at most {chunk} bytes per call and answering every 5th call with ErrorKind::Interrupted"), guarded(move || { let mut w = ChunkWriter { out: vec![], chunk, calls: 0, interrupt_every: 5 }; c2.write(&mut w).ok().map(|_| w.out) })));
+	let c3 = c.clone();
+	out.push((format!("BufWriter::with_capacity(16, a writer accepting at most {chunk} bytes per call)"), guarded(move || {
+		let mut w = std::io::BufWriter::with_capacity(16, ChunkWriter { out: vec![], chunk, calls: 0, interrupt_every: 0 });
+		if c3.write(&mut w).is_err() || w.flush().is_err() { return None; }
+		w.into_inner().ok().map(|x| x.out)
+	})));
+	let c4 = c.clone();
+	out.push(("Cursor over a mutable slice of exactly length() bytes".to_string(), guarded(move || { let mut buf = vec![0xAAu8; len]; let mut cur = Cursor::new(&mut buf[..]); let ok = c4.write(&mut cur).is_ok() && cur.position() as usize == len; if ok { Some(buf) } else { None } })));
+	out
+}
+/// writing into a slice that is one byte too short must be reported as an error
+fn impl_write_short_slice(c: &ClassFile, len: usize) -> Result<bool, String> {
+	let c = c.clone();
+	guarded(move || { let mut buf = vec![0u8; len.saturating_sub(1)]; let mut cur = Cursor::new(&mut buf[..]); c.write(&mut cur).is_err() })
+}
+
 // ------------------------------------------------------------------ independent JVMS walker
 mod jvms {
 	pub struct W<'a> { pub b: &'a [u8], pub i: usize, pub utf8: Vec<Option<Vec<u8>>>, pub wide: bool }
@@ -370,8 +408,31 @@ impl<'a> RawGen<'a> {
 		let nf = self.n(2); let nm = self.n(2);
 		let fields = (0..nf).map(|_| FieldInfo { access_flags: self.u16(), name_index: self.idx(), descriptor_index: self.idx(), attributes: self.attrs(0, 3) }).collect();
 		let methods = (0..nm).map(|_| MethodInfo { access_flags: self.u16(), name_index: self.idx(), descriptor_index: self.idx(), attributes: self.attrs(0, 3) }).collect();
-		let attributes = self.attrs(0, 4);
-		let k = self.rng.below(4);
+		let mut attributes = self.attrs(0, 4);
+		let mut k = self.rng.below(4);
+		if self.rng.chance(1, 3) {
+			// the name of the last attribute is the very LAST pool entry (javac -g:none ends a trivial class's pool with "Code"),
+			// in wide mode half of the time directly behind an 8-byte constant
+			k = 0;
+			if self.wide && self.rng.chance(1, 2) { let c = if self.rng.chance(1, 2) { CpInfo::Long { high_bytes: self.rng.next() as u32, low_bytes: self.rng.next() as u32 } } else { CpInfo::Double { high_bytes: self.rng.next() as u32, low_bytes: self.rng.next() as u32 } }; self.pool.e.push(c); }
+			let fresh: Vec<&str> = ["Deprecated", "Synthetic", "SourceFile", "Signature", "NestHost", "ModuleMainClass", "ConstantValue", "Code", "Exceptions", "SourceDebugExtension", "ZLast"].into_iter()
+				.filter(|n| !self.pool.e.iter().any(|c| matches!(c, CpInfo::Utf8 { bytes } if bytes == n.as_bytes()))).collect();
+			if let Some(name) = fresh.get(self.rng.below(fresh.len().max(1))) {
+				let i = self.idx();
+				let ani = self.pool.utf8(name);
+				debug_assert_eq!(ani as usize, indices_used(&self.pool.e));
+				attributes.push(match *name {
+					"Deprecated" => AttributeInfo::Deprecated { attribute_name_index: ani }, "Synthetic" => AttributeInfo::Synthetic { attribute_name_index: ani },
+					"SourceFile" => AttributeInfo::SourceFile { attribute_name_index: ani, sourcefile_index: i }, "Signature" => AttributeInfo::Signature { attribute_name_index: ani, signature_index: i },
+					"NestHost" => AttributeInfo::NestHost { attribute_name_index: ani, host_class_index: i }, "ModuleMainClass" => AttributeInfo::ModuleMainClass { attribute_name_index: ani, main_class_index: i },
+					"ConstantValue" => AttributeInfo::ConstantValue { attribute_name_index: ani, constantvalue_index: i },
+					"Code" => AttributeInfo::Code { attribute_name_index: ani, max_stack: 1, max_locals: 1, code: vec![0xb1], exception_table: vec![], attributes: vec![] },
+					"Exceptions" => AttributeInfo::Exceptions { attribute_name_index: ani, exception_index_table: vec![i] },
+					"SourceDebugExtension" => AttributeInfo::SourceDebugExtension { attribute_name_index: ani, debug_extension: vec![1, 2, 3] },
+					_ => AttributeInfo::Other { attribute_name_index: ani, info: vec![7] },
+				});
+			}
+		}
 		for _ in 0..k { let c = self.cp(); self.pool.e.push(c); }
 		ClassFile { minor_version: self.u16(), major_version: self.u16(), constant_pool: std::mem::take(&mut self.pool.e), access_flags: self.u16(),
 			this_class: self.idx(), super_class: self.idx(), interfaces: self.u16s(3), fields, methods, attributes }
@@ -517,6 +578,19 @@ fn through_value(r: &mut Report, stream: &str, c: &ClassFile, hyp: Option<bool>,
 			Ok(Some(b2)) if &b2 == bytes => {}
 			_ => r.violation("ClassFile::write() and to_bytes() differ".into(), replay("write(&mut Vec) produced other bytes than to_bytes()", String::new())),
 		}
+		// write() must hand over every byte whatever the writer accepts per call
+		for (what, got) in impl_write_partial(c, bytes.len()) {
+			match got {
+				Ok(Some(b2)) if &b2 == bytes => r.count("write_through_partial_writer_ok"),
+				Ok(Some(b2)) => r.violation(format!("ClassFile::write() through {what}: {} of {} bytes arrived", b2.len(), bytes.len()), replay(&format!("ClassFile::write() returned Ok through {what}, but the writer received {} bytes where to_bytes() has {} (first difference at {})", b2.len(), bytes.len(), b2.iter().zip(bytes.iter()).position(|(a, b)| a != b).unwrap_or(b2.len().min(bytes.len()))), format!("to_bytes(): {}\narrived:    {}", hex(bytes), hex(&b2)))),
+				Ok(None) => r.violation(format!("ClassFile::write() fails through {what}"), replay(&format!("ClassFile::write() returned Err through {what} (a short or interrupted write is not an error: write_all retries)"), String::new())),
+				Err(p) => r.violation(format!("ClassFile::write() panics through {what}: {p}"), replay("write() panicked", p.clone())),
+			}
+		}
+		if !bytes.is_empty() { match impl_write_short_slice(c, bytes.len()) {
+			Ok(true) => r.count("write_into_short_slice_is_error"),
+			_ => r.violation("ClassFile::write() reports success into a slice that is one byte too short".into(), replay("ClassFile::write(&mut Cursor::new(&mut [0u8; length() - 1][..])) must be an error (WriteZero)", String::new())),
+		} }
 		let back = impl_read(bytes);
 		match &back {
 			Ok(Some((v, pos))) if v == c && *pos == bytes.len() => { rd = "RSame".into(); r.count("roundtrip_equal"); }
@@ -542,6 +616,13 @@ fn through_value(r: &mut Report, stream: &str, c: &ClassFile, hyp: Option<bool>,
 		r.case(stream, format!("CVal {g_hyp} {} {} {} {rd}", g_nv(&nv_of(c)), gres(wr.as_ref().ok().map(|b| g_bytes(b))), gres(len.as_ref().ok().map(|l| l.to_string()))));
 	}
 	wr.ok()
+}
+
+/// as through_value, the correspondence case in a shard of its own
+fn through_value_big(r: &mut Report, stream: &str, c: &ClassFile, hyp: Option<bool>) {
+	let n = r.cases.len();
+	through_value(r, stream, c, hyp, true);
+	if r.cases.len() == n + 1 { let t = r.cases.pop().unwrap(); r.big_cases.push(t); }
 }
 
 /// a byte string: read; when it is a well-formed class file (walker) it must be reproduced byte for byte
@@ -640,6 +721,103 @@ fn crafted_wide() -> Vec<(String, Vec<u8>)> {
 	out
 }
 
+/// the attribute name at the first, a middle and the LAST pool position, also directly behind (and in front of) an 8-byte
+/// constant, for several attribute kinds; all inside the hypotheses: they must round-trip and the walker accepts them
+fn crafted_positions() -> Vec<(String, ClassFile)> {
+	let mut out = vec![];
+	let long = || CpInfo::Long { high_bytes: 7, low_bytes: 9 };
+	let dbl = || CpInfo::Double { high_bytes: 0x40040000, low_bytes: 0 };
+	let x = || CpInfo::Utf8 { bytes: b"x".to_vec() };
+	let int = || CpInfo::Integer { bytes: 5 };
+	// (description, entries before the name, entries after the name)
+	let layouts: Vec<(&str, Vec<CpInfo>, Vec<CpInfo>)> = vec![
+		("the only pool entry", vec![], vec![]),
+		("first entry, others behind it", vec![], vec![x(), int()]),
+		("first entry, an 8-byte constant behind it", vec![], vec![long()]),
+		("last entry", vec![x(), int()], vec![]),
+		("last entry, directly behind an 8-byte constant", vec![x(), long()], vec![]),
+		("last entry, the pool is one 8-byte constant and the name", vec![dbl()], vec![]),
+		("last entry behind two 8-byte constants", vec![long(), dbl()], vec![]),
+		("middle entry between two 8-byte constants", vec![long()], vec![dbl()]),
+		("middle entry", vec![x()], vec![int()]),
+	];
+	for (what, before, after) in layouts {
+		for kind in 0..6 {
+			let mut pool = before.clone();
+			let ani = (1 + indices_used(&pool)) as u16;
+			let name = ["Deprecated", "Code", "SourceFile", "StackMapTable", "NestMembers", "Mystery"][kind];
+			pool.push(CpInfo::Utf8 { bytes: name.as_bytes().to_vec() });
+			pool.extend(after.clone());
+			let attr = match kind {
+				0 => AttributeInfo::Deprecated { attribute_name_index: ani },
+				1 => AttributeInfo::Code { attribute_name_index: ani, max_stack: 0, max_locals: 1, code: vec![0xb1], exception_table: vec![], attributes: vec![] },
+				2 => AttributeInfo::SourceFile { attribute_name_index: ani, sourcefile_index: ani },
+				3 => AttributeInfo::StackMapTable { attribute_name_index: ani, entries: vec![StackMapFrame::SameFrame { offset_delta: 3 }] },
+				4 => AttributeInfo::NestMembers { attribute_name_index: ani, classes: vec![1, 2] },
+				_ => AttributeInfo::Other { attribute_name_index: ani, info: vec![1, 2, 3] },
+			};
+			let (mut fields, mut methods, mut attributes) = (vec![], vec![], vec![]);
+			match kind {
+				1 => methods.push(MethodInfo { access_flags: 1, name_index: ani, descriptor_index: ani, attributes: vec![attr] }),
+				0 if what.len() % 2 == 0 => fields.push(FieldInfo { access_flags: 1, name_index: ani, descriptor_index: ani, attributes: vec![attr] }),
+				_ => attributes.push(attr),
+			}
+			out.push((format!("attribute name {name:?} is {what} (index {ani})"),
+				ClassFile { minor_version: 0, major_version: 52, constant_pool: pool, access_flags: 0x21, this_class: 0, super_class: 0, interfaces: vec![], fields, methods, attributes }));
+		}
+	}
+	out
+}
+
+/// deterministic boundary values of every count/length width: (what, value, inside the hypotheses of read_write, also a correspondence case).
+/// The large ones are oracle-only: reading some 10^5 numerals takes coqc longer than the whole quick run.
+fn boundary_values(thorough: bool) -> Vec<(String, ClassFile, bool, bool)> {
+	let mut out: Vec<(String, ClassFile, bool, bool)> = vec![];
+	let class = |pool: Vec<CpInfo>, interfaces: Vec<u16>, methods: Vec<MethodInfo>, attributes: Vec<AttributeInfo>|
+		ClassFile { minor_version: 0, major_version: 61, constant_pool: pool, access_flags: 0x21, this_class: 0, super_class: 0, interfaces, fields: vec![], methods, attributes };
+	let name = |n: &str| vec![CpInfo::Utf8 { bytes: n.as_bytes().to_vec() }];
+	// one-byte counts: 255 fits, 256 does not
+	for n in [254usize, 255, 256, 257] {
+		out.push((format!("MethodParameters with {n} parameters (u8 count)"), class(name("MethodParameters"), vec![], vec![], vec![AttributeInfo::MethodParameters { attribute_name_index: 1, parameters: vec![MethodParametersEntry { name_index: 0, access_flags: 0x10 }; n] }]), n <= 255, true));
+		out.push((format!("RuntimeVisibleParameterAnnotations with {n} parameters (u8 count)"), class(name("RuntimeVisibleParameterAnnotations"), vec![], vec![], vec![AttributeInfo::RuntimeVisibleParameterAnnotations { attribute_name_index: 1, parameter_annotations: vec![ParameterAnnotationEntry { annotations: vec![] }; n] }]), n <= 255, true));
+	}
+	// two-byte counts: 255/256 are nothing special, 65535 fits, 65536 is written as 0
+	for n in [255usize, 256, 65535, 65536, 70000] {
+		let big = n > 300;
+		let fits = n <= 65535;
+		out.push((format!("{n} interfaces (u16 count)"), class(vec![], (0..n).map(|i| i as u16).collect(), vec![], vec![]), fits, !big));
+		out.push((format!("NestMembers with {n} classes (u16 count)"), class(name("NestMembers"), vec![], vec![], vec![AttributeInfo::NestMembers { attribute_name_index: 1, classes: (0..n).map(|i| i as u16).collect() }]), fits, !big));
+		out.push((format!("Exceptions with {n} entries (u16 count, attribute_length 2 + 2n)"), class(name("Exceptions"), vec![], vec![MethodInfo { access_flags: 1, name_index: 1, descriptor_index: 1, attributes: vec![AttributeInfo::Exceptions { attribute_name_index: 1, exception_index_table: vec![1; n] }] }], vec![]), fits, !big));
+		out.push((format!("Utf8 constant of {n} bytes (u16 length)"), class(vec![CpInfo::Utf8 { bytes: (0..n).map(|i| b'a' + (i % 26) as u8).collect() }], vec![], vec![], vec![]), fits, !big || (thorough && n == 65536)));
+		if big {
+			let mut code_pool = name("Code"); code_pool.extend(name("LineNumberTable"));
+			out.push((format!("LineNumberTable with {n} entries inside Code (u16 count)"), class(code_pool, vec![], vec![MethodInfo { access_flags: 1, name_index: 1, descriptor_index: 1, attributes: vec![AttributeInfo::Code { attribute_name_index: 1, max_stack: 0, max_locals: 0, code: vec![0xb1], exception_table: vec![],
+				attributes: vec![AttributeInfo::LineNumberTable { attribute_name_index: 2, line_number_table: vec![LineNumberTableEntry { start_pc: 0, line_number: 1 }; n] }] }] }], vec![]), fits, false));
+		}
+	}
+	// constant_pool_count = indices + 1: 65534 one-index entries announce 65535, one more announces 0; 8-byte constants count twice
+	for (n, wide) in [(65534usize, false), (65535, false), (32767, true), (32768, true)] {
+		let pool: Vec<CpInfo> = (0..n).map(|i| if wide { CpInfo::Long { high_bytes: 0, low_bytes: i as u32 } } else { CpInfo::Integer { bytes: i as u32 } }).collect();
+		let indices = if wide { 2 * n } else { n };
+		out.push((format!("constant pool of {n} {} entries ({indices} indices, constant_pool_count {})", if wide { "Long" } else { "Integer" }, indices + 1), class(pool, vec![], vec![], vec![]), indices + 1 <= 65535, false));
+	}
+	// the name of an attribute behind 65533 other indices: the largest index a pool can have
+	{
+		let mut pool: Vec<CpInfo> = (0..32766).map(|i| CpInfo::Double { high_bytes: i as u32, low_bytes: 0 }).collect(); // indices 1..65532
+		pool.push(CpInfo::Integer { bytes: 1 }); // 65533
+		pool.push(CpInfo::Utf8 { bytes: b"Deprecated".to_vec() }); // 65534 = constant_pool_count - 1
+		out.push(("attribute name at index 65534 of a pool announcing 65535".into(), class(pool, vec![], vec![], vec![AttributeInfo::Deprecated { attribute_name_index: 65534 }]), true, false));
+	}
+	// four-byte lengths: nothing happens at 2^16
+	for n in [65535usize, 65536, 70000] {
+		let body: Vec<u8> = (0..n).map(|i| (i * 7 % 251) as u8).collect();
+		out.push((format!("unknown attribute with {n} bytes of info (u32 length)"), class(name("Mystery"), vec![], vec![], vec![AttributeInfo::Other { attribute_name_index: 1, info: body.clone() }]), true, false));
+		out.push((format!("SourceDebugExtension of {n} bytes (u32 length)"), class(name("SourceDebugExtension"), vec![], vec![], vec![AttributeInfo::SourceDebugExtension { attribute_name_index: 1, debug_extension: body.clone() }]), true, false));
+		out.push((format!("Code with {n} bytes of code (u32 code_length)"), class(name("Code"), vec![], vec![MethodInfo { access_flags: 1, name_index: 1, descriptor_index: 1, attributes: vec![AttributeInfo::Code { attribute_name_index: 1, max_stack: 0, max_locals: 0, code: body.clone(), exception_table: vec![], attributes: vec![] }] }], vec![]), true, false));
+	}
+	out
+}
+
 /// values outside the hypotheses of read_write, one stream per hypothesis
 fn gen_violating(rng: &mut Rng, which: usize) -> ClassFile {
 	let mut p = Pool::default();
@@ -708,7 +886,7 @@ fn crafted() -> Vec<(String, Vec<u8>)> {
 pub fn run(ctx: &Ctx) -> anyhow::Result<Report> {
 	let mut r = Report::new("C20", "C20.Run");
 	let mut rng = Rng::new(ctx.seed);
-	r.rule = "streams: corpus (javac 17 --release 8/11/17 classes vendored under corpus/C20, read + rewritten); shared-corpus (every class of corpus/classes — javac 8/11/17 output, 260 third-party/JDK classes, crafted ones; 76 of them with long/double constants — through the oracle, the smaller ones with 8-byte constants also as correspondence cases); raw (random raw ClassFile values over every struct/enum/variant the crate declares, attribute names interned so that tags resolve: inside the hypotheses of read_write); raw-wide (same with Long/Double pool entries in front of and behind the interned attribute names: indices are JVMS indices, an 8-byte constant takes two); valid (small semantically valid classes, also cross-read by duke::read_class and compared with the generator's ground truth); violating (one sub-stream per hypothesis of read_write: frame tags resolving elsewhere, u8 tag overflow, attribute names designating another/no name, count wider than its field); written (bytes the crate wrote, read as input); crafted (deterministic edits: wrong magic, pool count 0/1/65535, literal and computed attribute_length off, name index 0 / not Utf8 / past the pool / unknown name, giant counts, every truncation, trailing bytes; pools with 8-byte constants announced with every count around the right one, attribute names designating every index of such a pool incl. the unusable second index of a Long/Double — refused with an error, never a panic); mutated (1-3 byte edits/truncations of corpus and written files). Oracle on the implementation alone: length()==bytes written, write()==to_bytes(), read(to_bytes(v))==v, files accepted by an independent strict JVMS walker are reproduced byte for byte and files the crate writes are accepted by it. Non-trivial: non-empty pool or attributes / more than 24 bytes; distinct by Debug text or bytes.".into();
+	r.rule = "streams: corpus (javac 17 --release 8/11/17 classes vendored under corpus/C20, read + rewritten); shared-corpus (every class of corpus/classes — javac 8/11/17 output, 260 third-party/JDK classes, crafted ones; 76 of them with long/double constants — through the oracle, the smaller ones with 8-byte constants also as correspondence cases); raw (random raw ClassFile values over every struct/enum/variant the crate declares, attribute names interned so that tags resolve: inside the hypotheses of read_write); raw-wide (same with Long/Double pool entries in front of and behind the interned attribute names: indices are JVMS indices, an 8-byte constant takes two); valid (small semantically valid classes, also cross-read by duke::read_class and compared with the generator's ground truth); violating (one sub-stream per hypothesis of read_write: frame tags resolving elsewhere, u8 tag overflow, attribute names designating another/no name, count wider than its field); written (bytes the crate wrote, read as input); crafted (deterministic edits: wrong magic, pool count 0/1/65535, literal and computed attribute_length off, name index 0 / not Utf8 / past the pool / unknown name, giant counts, every truncation, trailing bytes; pools with 8-byte constants announced with every count around the right one, attribute names designating every index of such a pool incl. the unusable second index of a Long/Double — refused with an error, never a panic); mutated (1-3 byte edits/truncations of corpus and written files); positions (the attribute name as the only / first / middle / LAST pool entry, directly behind or in front of 8-byte constants, x six attribute kinds on class, field and method; a third of the raw values also end their pool with the name of their last attribute); boundary / boundary-violating (254..257 elements under a u8 count, 255/256/65535/65536/70000 under u16 counts and lengths incl. Utf8, constant_pool_count 65535 and 0 with one- and two-index entries, an attribute name at index 65534, attribute bodies of 65535/65536/70000 bytes under u32 lengths; the large ones oracle-only). Oracle on the implementation alone: length()==bytes written, write()==to_bytes() also through writers accepting 7..64 bytes per call, interrupted writers, a 16-byte BufWriter over them and an exact-length slice, an error into a slice one byte short, read(to_bytes(v))==v, files accepted by an independent strict JVMS walker are reproduced byte for byte and files the crate writes are accepted by it. Non-trivial: non-empty pool or attributes / more than 24 bytes; distinct by Debug text or bytes.".into();
 	let (n_raw, n_valid, n_viol, n_mut) = if ctx.thorough { (3000, 900, 270, 3000) } else { (320, 100, 54, 300) };
 	r.shard_size = if ctx.thorough { 170 } else { 62 };
 
@@ -770,6 +948,17 @@ pub fn run(ctx: &Ctx) -> anyhow::Result<Report> {
 		let which = i % 9;
 		let c = gen_violating(&mut rng, which);
 		through_value(&mut r, &format!("violating-{which}"), &c, Some(false), true);
+	}
+	// 4b attribute names at the first / last / behind-a-wide-entry pool positions; boundary values of every count width
+	for (what, c) in crafted_positions() {
+		if let Some(b) = through_value(&mut r, "positions", &c, Some(true), true) { through_bytes(&mut r, "positions-bytes", &b, &what, false); if b.len() <= 500 { seeds.push(b); } }
+		r.count("crafted_positions");
+	}
+	for (what, c, fits, emit) in boundary_values(ctx.thorough) {
+		let stream = if fits { "boundary" } else { "boundary-violating" };
+		if emit && c.length() > 4000 { r.count("boundary_big_case"); through_value_big(&mut r, stream, &c, Some(fits)); }
+		else if let Some(b) = through_value(&mut r, stream, &c, Some(fits), emit) { if fits { through_bytes(&mut r, "boundary-bytes", &b, &what, false); } }
+		r.count(if emit { "boundary_values_also_correspondence" } else { "boundary_values_oracle_only" });
 	}
 	// 5 crafted edits, then random mutations
 	for (what, b) in crafted() { through_bytes(&mut r, "crafted", &b, &what, true); }
